@@ -145,7 +145,8 @@ def c05(tr, firmware):
                 out.append(F("c05_recovered_twice", it, "forwarded commands advance the filament %r mm beyond its previous maximum, the file's command %r" % (dep_f, dep_u)))
         if df < du - TOL:
             out.append(F("c05_shallower", it, "filament retracted %r mm, the file currently assumes %r" % (df, du)))
-        printing = (it.kind == "g" and it.u_step is not None and it.u_step.is_move and it.u_step.dfil > 0
+        # (a move "extrudes" if it pushes filament - not if the same E value, written in other units, differs in the last bit)
+        printing = (it.kind == "g" and it.u_step is not None and it.u_step.is_move and it.u_step.dfil > 1e-9
                     and it.cmd in it.out and not in_window(it) and not it.closing)
         if printing:
             k = it.out.index(it.cmd)
